@@ -67,14 +67,24 @@ class _Crash:
         ap = os.path.abspath(path)
         if self.root and not ap.startswith(self.root):
             return
-        if os.getpid() != self.main_pid and not _CFG.get("crash_count_workers", False):
-            # worker process: mutations are logged but not numbered in the global order
-            emit("mut", n=None, op=op, path=ap, fn=_caller(3))
+        if os.getpid() != self.main_pid:
+            # worker process: mutations are logged but not numbered in the global order; optionally the whole
+            # process group is killed when a worker reaches its k-th own mutation (multi-process kill points)
+            if getattr(self, "wpid", None) != os.getpid():
+                self.wpid = os.getpid()
+                self.wn = 0
+            self.wn += 1
+            emit("mut", n=None, wn=self.wn, op=op, path=ap, fn=_caller(3))
+            k = _CFG.get("crash_worker_at")
+            if k is not None and self.wn == k:
+                emit("crash", n=None, wn=self.wn, op=op, path=ap, fn=_caller(3))
+                import signal
+                os.killpg(os.getpgid(0), signal.SIGKILL)
             return
         self.n += 1
         emit("mut", n=self.n, op=op, path=ap, fn=_caller(3))
         if self.crash_at is not None and self.n == self.crash_at:
-            emit("crash", n=self.n, op=op, path=ap)
+            emit("crash", n=self.n, op=op, path=ap, fn=_caller(3))
             if _fh:
                 _fh.flush()
             if self.kill_group:
